@@ -271,6 +271,25 @@ def fault_pipeline(work, rep, tier, seed, prop):
                         {"id": "%s-%s-%d" % (scen, lv, j), "steps": pre + steps + TAIL})
                     nplace += 1 if nf else 0
             rep.cov.setdefault("fault_behaviours", {})["%s/%s" % (scen, store)] = len(sch)
+        # the caller goes away: the context of one update is cancelled while one of its storage calls is in progress (no storage failure at all).
+        # The code may ignore the context or honour it; what it answers as a refusal must have had, and must keep having, no effect.
+        prog = progs[scen][0]
+        nh = 0
+        for k_, op_ in enumerate(prog):
+            if op_["kind"] != "update":
+                continue
+            for call in ("WriteOps", "GetLatest", "Set"):
+                steps = []
+                for j_, o2 in enumerate(prog):
+                    st_ = {"op": "get", "log": o2["log"]} if o2["kind"] == "read" else {"op": "update", "log": o2["log"], "req": o2["req"]}
+                    if j_ == k_:
+                        st_["hold"] = call
+                    steps.append(st_)
+                pre = [x for x in (seqfam.tofu_steps(db0_of(db), 2) if db == "s1" else []) if x["log"] == "l1"]
+                for stkind in ("inmem", "sqlfault"):
+                    runs_by[(stkind, "iface")].append({"id": "%s-hold%d%s" % (scen, k_, call), "steps": pre + steps + TAIL})
+                nh += 1
+        rep.cov.setdefault("context_cancelled_during_storage_call", {})[scen] = nh
     jc = seqfam.consts(Logs={"l1", "l2"}, MaxSize=3, NBranch=2, ForkAt=Sub("Fork_1"))
     all_events = []
     for (store, lv), runs in runs_by.items():
@@ -336,8 +355,14 @@ def c06(work, tier, seed, replay):
         pre = [x for x in seqfam.tofu_steps(db0_of(db), 2) if x["log"] == "l1"] if db == "s1" else []
         steps = pre + [{"op": "update", "log": op["log"], "req": op["req"]} for op in progs[scen][0] if op["kind"] == "update"]
         hists.append({"id": scen, "steps": steps})
+    # the same growth histories on a database file that ALREADY EXISTS when the tree's code first opens it: written with the schema of the pinned
+    # release and holding an acknowledged checkpoint; start-up (Init, where a schema upgrade would run) is inside the kill window
+    for scen in ("H_Grow", "H_GrowGrow"):
+        hists.append({"id": "L" + scen[1:], "legacy": True, "steps": [{"op": "update", "log": op["log"], "req": op["req"]} for op in progs[scen][0] if op["kind"] == "update"]})
     hp, tp = work.path("hists.jsonl"), work.path("crash.ndjson")
     write_runs(hp, OPS_PARAMS, hists)
+    hp_prod = work.path("hists-prod.jsonl")
+    write_runs(hp_prod, OPS_PARAMS, [h_ for h_ in hists if not h_.get("legacy")])
     nrand = 20 if tier == "quick" else 400
     o, dt = run_driver(["crash", "-in", hp, "-out", tp, "-dir", work.sub("db"), "-random", str(nrand), "-seed", str(seed), "-workers", str(NCPU)], timeout=3000)
     rep.notes.append(o.strip())
@@ -346,7 +371,7 @@ def c06(work, tier, seed, replay):
     # while it serves the same histories over the bastion connection it dialled, restarted on the same file, read through its read API and probed
     binp = build_prod_binary()
     tp2 = work.path("prod-crash.ndjson")
-    o2, dt2 = run_driver(["prod-crash", "-bin", binp, "-in", hp, "-out", tp2, "-dir", work.sub("db"), "-seed", str(seed), "-workers", str(NCPU), "-kills", "2" if tier == "quick" else "24"], timeout=3000)
+    o2, dt2 = run_driver(["prod-crash", "-bin", binp, "-in", hp_prod, "-out", tp2, "-dir", work.sub("db"), "-seed", str(seed), "-workers", str(NCPU), "-kills", "2" if tier == "quick" else "24"], timeout=3000)
     rep.notes.append(o2.strip())
     with open(tp, "a") as f:
         f.write(open(tp2).read())
